@@ -1,6 +1,7 @@
 import CheetahModel.Proofs.Tables
 import CheetahModel.Proofs.TextProofs
 import CheetahModel.Proofs.NxProofs
+import CheetahModel.Proofs.NamelistProofs
 /-!
 # C13 — imported lattices mean what the lattice file says
 
@@ -102,6 +103,40 @@ theorem nx_accepts_iff_no_overlap (r : ℝ × ℝ) (rest : List (ℝ × ℝ)) :
       List.IsChain (fun a b : ℝ × ℝ => 0 ≤ b.1 - a.1 - a.2 / 2 - b.2 / 2) (r :: rest) := by
   simp only [Nx.fill, Option.isSome_map]
   exact Nx.fillGo_isSome rest r
+
+/-! ### statement level (`Namelist.lean`, tied to `parse_lines` / `convert_element` by the correspondence `nml`) -/
+
+/-- **property assignment** (`name[prop] = e`, `type::pattern[prop] = e`): the right-hand side is evaluated once, in the
+context before the statement; every addressed element — the named one, or every element of that type the wild card
+matches — ends up with exactly that value; no other name changes -/
+theorem statement_assign_property_once (c c' : Nml.Ctx) (wild : Option String) (name prop : String) (e : Nml.Ex)
+    (h : Nml.step c (.assignProp wild name prop e) = some c') :
+    ∃ v, Nml.eval c e = some v ∧
+      (∀ n ∈ (match wild with | some etype => Nml.resolve c etype name | none => [name]),
+          ∃ t ps, Nml.lookup c' n = some (.elem t ps) ∧ Nml.getProp ps prop = some v) ∧
+      (∀ k, k ∉ (match wild with | some etype => Nml.resolve c etype name | none => [name]) →
+          Nml.lookup c' k = Nml.lookup c k) :=
+  Nml.assign_property_once c c' wild name prop e h
+
+/-- **the last `use` of a file names the lattice**, whatever came before -/
+theorem statement_last_use_wins (c c' : Nml.Ctx) (ss : List Nml.Stmt) (n : String)
+    (h : Nml.run c (ss ++ [.use n]) = some c') : Nml.useName c' = some n := Nml.last_use_wins c c' ss n h
+
+/-- **a line denotes its items in order**: the lattice built for a line is a segment of that name whose items are the
+expansions of the line's items, one by one, against the same final context; its elements in beam order are the
+concatenation of the items' elements -/
+theorem line_expansion (c : Nml.Ctx) (f : Nat) (name : String) (items : List String) (t : Nml.Tree)
+    (hl : Nml.lookup c name = some (.line items)) (h : Nml.expand c (f + 1) name = some t) :
+    ∃ ts, Nml.Each c f items ts ∧ t = .seg name ts ∧ t.flat = ts.flatMap Nml.Tree.flat := by
+  obtain ⟨ts, h1, h2, h3⟩ := Nml.expand_line c f name items t hl h
+  exact ⟨ts, (Nml.expandList_each c f items ts).mp h1, h2, by rw [h3, Nml.flatList_eq_flatMap]⟩
+
+/-- **wild cards**: `*` is any run of characters, `%` exactly one, every other character itself -/
+theorem wildcard_semantics (p s : List Char) :
+    (Nml.glob ('*' :: p) s = true ↔ ∃ k, k ≤ s.length ∧ Nml.glob p (s.drop k) = true) ∧
+    (Nml.glob ('%' :: p) s = true ↔ ∃ ch t, s = ch :: t ∧ Nml.glob p t = true) ∧
+    ((∀ ch ∈ p, ch ≠ '*' ∧ ch ≠ '%') → (Nml.glob p s = true ↔ s = p)) :=
+  ⟨Nml.glob_star p s, Nml.glob_percent p s, Nml.glob_literal p s⟩
 
 /-! non-vacuity: a three-line statement with both marks -/
 example : mergeAll ["q1: quad, &".toList, "l=1,".toList, "k1=2".toList, "d: drift".toList]
